@@ -234,7 +234,9 @@ class Outcome:
 
 def finish(out):
     """Writes evidence, prints verdict lines, returns the exit code."""
-    os.makedirs(os.path.join(VERIF, "evidence"), exist_ok=True)
+    # evidence/ describes /repo; a run against another tree (VERIF_REPO: seeded changes, refactorings) leaves it alone
+    evdir = os.path.join(VERIF, "evidence") if REPO == "/repo" else os.path.join(VERIF, "replays", "evidence-other-tree")
+    os.makedirs(evdir, exist_ok=True)
     cov = out.coverage
     if not cov.get("samples"):
         cov["samples"] = ["(no sample recorded)"]
@@ -242,7 +244,7 @@ def finish(out):
     ev = {"property_id": out.prop, "tier": out.tier, "seed": out.seed, "level": "model_checking", "coverage": cov,
           "assumptions": out.assumptions, "wall_s": round(time.time() - out.t0, 2), "violations": len(out.violations),
           "known_findings": out.known, "notes": out.notes}
-    with open(os.path.join(VERIF, "evidence", out.prop + ".json"), "w") as f:
+    with open(os.path.join(evdir, out.prop + ".json"), "w") as f:
         json.dump(ev, f, indent=1, default=str)
     for k in out.known:
         log("KNOWN-FINDING: property=%s %s" % (out.prop, k))
